@@ -29,11 +29,20 @@ def encode(N, fn):
     ex = Exec(fn, while_bound=N, builtins={("method", "ignores"): ignores, "__universe__": uni})
     ex.env["self"] = "SELF"
     res = ex.call(["SELF", deps])
-    return ex, res, keys, bits
+    # history: the caller sorts the SAME map object a second time (whatever the first call did to it is kept)
+    ex2 = Exec(fn, while_bound=N, builtins={("method", "ignores"): ignores, "__universe__": uni})
+    ex2.env["self"] = "SELF"
+    res2 = ex2.call(["SELF", deps])
+    return ex, res, keys, bits, ex2, res2
 
 
-def obligations(ex, res, keys, bits):
+def obligations(ex, res, keys, bits, tag=""):
     """-> list of (name, assumptions, claim)."""
+    obs = _obligations(ex, res, keys, bits)
+    return [(nm + tag, a, c) for nm, a, c in obs]
+
+
+def _obligations(ex, res, keys, bits):
     N = len(keys)
     obs = []
     noexc = NOT(OR(*ex.exc.values())) if ex.exc else z3.BoolVal(True)
@@ -91,7 +100,7 @@ def concrete_check(deps, result):
     return None
 
 
-def replay(model, N, bits, keys):
+def replay(model, N, bits, keys, second=False):
     from psyclone.parse import ModuleManager
     deps = {}
     for i, k in enumerate(keys):
@@ -102,7 +111,10 @@ def replay(model, N, bits, keys):
     buf = io.StringIO()
     try:
         with contextlib.redirect_stdout(buf):
-            result = mm.sort_modules({k: set(v) for k, v in deps.items()})
+            arg = {k: set(v) for k, v in deps.items()}
+            result = mm.sort_modules(arg)
+            if second:
+                result = mm.sort_modules(arg)       # the same map object, sorted again
     except Exception as e:  # pylint: disable=broad-except
         return deps, None, f"exception {type(e).__name__}: {e}"
     return deps, result, concrete_check(deps, result)
@@ -121,8 +133,10 @@ def main():
     for N in Ns:
         t0 = time.time()
         try:
-            ex, res, keys, bits = encode(N, fn)
+            ex, res, keys, bits, ex2, res2 = encode(N, fn)
             obs = obligations(ex, res, keys, bits)
+            first_ok = NOT(OR(*ex.exc.values())) if ex.exc else z3.BoolVal(True)
+            obs += [(nm, a + [first_ok], c) for nm, a, c in obligations(ex2, res2, keys, bits, "@second_sort_of_the_same_map")]
         except PyUnsupported as e:
             chk.harness_error(f"pysx cannot follow sort_modules any more: {e}")
             break
@@ -154,14 +168,16 @@ def main():
             elif r == "unknown":
                 chk.count("inconclusive")
             else:
-                deps, result, problem = replay(s.model(), N, bits, keys)
+                deps, result, problem = replay(s.model(), N, bits, keys, second="@second_sort" in name)
                 if problem:
                     chk.count("sat_replayed")
                     chk.report({"unit": "ModuleManager.sort_modules", "template": name,
                                 "params": {"N": N, "deps": {k: sorted(v) for k, v in deps.items()}}},
                                f"sort_modules({deps}) -> {result}: {problem} (obligation {name})",
                                f"deps = {deps}\nresult = {result}\nproblem = {problem}\n"
-                               "replay: ModuleManager.get().sort_modules(deps)\n")
+                               "replay: ModuleManager.get().sort_modules(deps)" +
+                               (" called twice on the same dict object; the second result is shown\n"
+                                if "@second_sort" in name else "\n"))
                 else:
                     chk.count("sat_not_reproduced")
                     chk.harness_error(f"model for {name} N={N} did not reproduce: {deps} -> {result}")
@@ -191,7 +207,7 @@ def self_test(chk):
     import contextlib
     for _ in range(25):
         N = rnd.randint(1, 4)
-        ex, res, keys, bits = encode(N, fn)
+        ex, res, keys, bits = encode(N, fn)[:4]
         deps = {k: {u for u in keys + UNKS if rnd.random() < 0.3} for k in keys}
         s = z3.Solver()
         for i, k in enumerate(keys):
